@@ -12,7 +12,9 @@ mod capture;
 mod engine;
 mod galloc;
 mod groups;
+mod loopdrv;
 mod props;
+mod trace;
 mod util;
 
 use std::{
